@@ -51,11 +51,12 @@ type Pipe struct {
 	Window   int // 0 = unlimited
 	buffered int
 
-	SegPol  int
-	MSS     int
-	Latency int64 // base latency ns
-	Jitter  int64
-	ShortRd int // probability (per 1000) that a Read returns fewer bytes than available
+	SegPol     int
+	MSS        int
+	Latency    int64 // base latency ns
+	Jitter     int64
+	ShortRd    int  // probability (per 1000) that a Read returns fewer bytes than available
+	NoCoalesce bool // a Read never spans two segments
 
 	Capture bool
 	cap     []byte
@@ -168,13 +169,14 @@ type Conn struct {
 
 // NetCfg parameterises a connection.
 type NetCfg struct {
-	SegPol  int
-	MSS     int
-	Latency int64
-	Jitter  int64
-	ShortRd int
-	Window  int
-	Capture bool
+	SegPol     int
+	MSS        int
+	Latency    int64
+	Jitter     int64
+	ShortRd    int
+	Window     int
+	Capture    bool
+	NoCoalesce bool
 }
 
 // NewConnPair creates a connected pair (a,b). Bytes written to a are read
@@ -200,6 +202,7 @@ func (p *Pipe) apply(c NetCfg) {
 	p.ShortRd = c.ShortRd
 	p.Window = c.Window
 	p.Capture = c.Capture
+	p.NoCoalesce = c.NoCoalesce
 }
 
 // DrawNetCfg draws a benign network configuration (value 0 = simplest).
@@ -210,6 +213,7 @@ func DrawNetCfg(c *Choice) NetCfg {
 	n.Latency = []int64{0, 50e3, 5e6, 100e6}[c.Choose(4, LNetCfg)]
 	n.Jitter = []int64{0, 20e3, 3e6}[c.Choose(3, LNetCfg)]
 	n.ShortRd = []int{0, 50, 300}[c.Choose(3, LNetCfg)]
+	n.NoCoalesce = c.Bool(1, 4, LNetCfg)
 	return n
 }
 
@@ -341,22 +345,43 @@ func (c *Conn) Read(b []byte) (int, error) {
 			if len(b) == 0 {
 				return 0, nil
 			}
-			sg := &p.segs[p.head]
-			n := len(sg.data) - sg.off
+			// like TCP, a read returns whatever has been delivered so far, across
+			// segment boundaries (unless NoCoalesce), possibly cut short
+			avail := 0
+			for i := 0; i < p.n; i++ {
+				sg := &p.segs[(p.head+i)%len(p.segs)]
+				if sg.at > s.Now {
+					break
+				}
+				avail += len(sg.data) - sg.off
+				if p.NoCoalesce || avail >= len(b) {
+					break
+				}
+			}
+			n := avail
 			if n > len(b) {
 				n = len(b)
 			}
 			if p.ShortRd > 0 && n > 1 && s.C.Bool(p.ShortRd, 1000, LNetShort) {
 				n = 1 + s.C.Choose(n-1, LNetShort)
 			}
-			for i := 0; i < n; i++ {
-				b[i] = sg.data[sg.off+i]
-			}
-			sg.off += n
-			if sg.off >= len(sg.data) {
-				sg.data = nil
-				p.head = (p.head + 1) % len(p.segs)
-				p.n--
+			done := 0
+			for done < n {
+				sg := &p.segs[p.head]
+				k := len(sg.data) - sg.off
+				if k > n-done {
+					k = n - done
+				}
+				for i := 0; i < k; i++ {
+					b[done+i] = sg.data[sg.off+i]
+				}
+				sg.off += k
+				done += k
+				if sg.off >= len(sg.data) {
+					sg.data = nil
+					p.head = (p.head + 1) % len(p.segs)
+					p.n--
+				}
 			}
 			p.buffered -= n
 			p.BytesR += int64(n)
